@@ -56,7 +56,8 @@ PA(acts, streaming) ==
 PEv(name) ==
     LET r == PluginEvent(ps, name)
     IN  /\ ps' = r.ps
-        /\ cs' = PevStep(cs, [name |-> name, rl |-> r.ps.fs.regs, notes |-> r.notes, nx |-> TRUE])
+        /\ cs' = PevStep(cs, [name |-> name, rl |-> r.ps.fs.regs, notes |-> r.notes, nx |-> TRUE,
+                               pst |-> [active |-> r.ps.active]])
         /\ hist' = Append(hist, [k |-> "pev", t |-> name])
         /\ lastEv' = name
 
